@@ -36,6 +36,9 @@ func presetFor(c *Ctx, id string, i int) *HistOpts {
 	o.Gen.EqualPower = rng.Intn(3) == 0
 	w := o.Gen.W
 	switch id {
+	case "C02":
+		o.Gen.EVM, o.UseRef = true, true // contract deployments and calls carrying value
+		w["deploy"], w["call"], w["xfer2contract"] = 5, 25, 6
 	case "C04":
 		o.Gen.EVM, o.UseRef = true, true // the quantifier covers native and contract transactions
 		w["deploy"], w["call"], w["xfer2contract"] = 5, 25, 8
@@ -84,6 +87,9 @@ func presetFor(c *Ctx, id string, i int) *HistOpts {
 	}
 	if o.Gen.NVal > int(o.Params.MaxValidatorCnt) {
 		o.Gen.NVal = int(o.Params.MaxValidatorCnt)
+	}
+	if i%3 != 0 {
+		o.Mempool = 400 // behave like a node with a mempool: CheckTx precedes delivery
 	}
 	// directed scenarios over the random filling (every second history)
 	if i%2 == 0 {
